@@ -33,9 +33,18 @@ def plan(tier, seed):
 def gen_case(rng, ctx):
     thorough = ctx.tier == "thorough"
     nmax = (10 if rng.random() < 0.15 else 8) if thorough else (8 if rng.random() < 0.3 else 7)
+    if rng.random() < 0.4:
+        # several non-trivial components of different sizes (blocks of 3 and 4 with pure rotations), bound between the sizes:
+        # some components go to the auxiliary algorithm, others to the exact solver, in both orders
+        n = rng.choice([6, 7, 7, 8, 8, 9] if thorough else [6, 7, 7, 8])
+        cls, ds = gen.dataset(rng, cls="D11", n=n, m=rng.choice([3, 3, 6]), mmax=6)
+        ds = libx.normalise_raw(ds)
+        scls, sch = gen.scheme(rng, "S1 S1 S11 S3")
+        return {"ds": ds, "scheme": sch, "dcls": "D11-mixed", "scls": scls, "bound": rng.choice([2, 3, 3]),
+                "aux": rng.choice(AUX), "libseed": rng.randrange(10 ** 6), "other": rng.choice(OTHERS)}
     cls, ds = gen.dataset(rng, classes="D11 D11 D11 D11 D9 D9 D7 D10 D3 D4 D8 D2", nmax=nmax, mmax=6)
     ds = libx.normalise_raw(ds)
-    scls, sch = gen.scheme(rng, "S1 S1 S2 S3 S3 S3 S6")
+    scls, sch = gen.scheme(rng, "S1 S1 S2 S3 S3 S3 S6 S9 S11 S11")
     return {"ds": ds, "scheme": sch, "dcls": cls, "scls": scls, "bound": rng.choice([0, 2, 2, 3, 80]),
             "aux": rng.choice(AUX), "libseed": rng.randrange(10 ** 6), "other": rng.choice(OTHERS)}
 
@@ -142,6 +151,8 @@ def check_case(case, ctx):
         if name != "ParCons":
             if aux_called:
                 ctx.count("aux_component_runs")
+                if ilps:
+                    ctx.count("runs_mixing_exact_and_auxiliary_components")
             if bool(flag) != (not aux_called):
                 ctx.violation("C06/flag-does-not-match-delegation", f"{name}: necessarily_optimal={flag} but the "
                               f"auxiliary algorithm received {len(log)} call(s)", sub, observed=flag,
@@ -181,6 +192,8 @@ def reach(counters, tier, info):
                             ("cases where a ranking misses an entire multi-element component",
                              "ranking_misses_whole_component", 60 * k),
                             ("partitions with >= 3 groups", "groups:3", 40 * k),
+                            ("runs where some components went to the exact solver and others to the auxiliary algorithm",
+                             "runs_mixing_exact_and_auxiliary_components", 10 * k),
                             ("consensuses flagged optimal", "flag_true", 200 * k),
                             ("consensuses not flagged optimal", "flag_false", 100 * k),
                             ("flags of other algorithms read", "other_flags", 200 * k)]:
